@@ -13,7 +13,9 @@ META = {
     'engine': 'E',
     'technique': 'explicit-state BFS over timer/response/fault/task histories with a virtual clock; deadline invariant in every state',
     'text': 'All histories up to the depth bound for timeouts {0, 0.5, 10} x speculative executions {0, 1 (delay 1.0)} x '
-            'first page and one further page fetch: answers may never come.  Invariant in every state: an unfinished '
+            'first page and one further page fetch, plus configurations with more speculative executions than hosts in the '
+            'plan (3 on 2 hosts, 1-2 on 1 host) and speculative delays that do not fit / exactly fit the remaining time '
+            '(0.4 x3, 0.5 x2, 2.0 x1 with timeout 1.0): answers may never come.  Invariant in every state: an unfinished '
             'page fetch has virtual time <= its start + timeout + 30 ms (the documented PYTHON-853 re-arm), a finished one '
             'finished by then; when no timer and no task is left every fetch has finished.',
     'note': 'Query plans are finite (3 hosts).  Time is the virtual clock that every driver module reads; it advances only '
@@ -77,6 +79,12 @@ def configs(ctx):
             p = dict(hosts=3, timeout=to, spec=spec, paged=True, kinds=['rows_more', 'overloaded'],
                      decisions=['RETRY', 'RETRY_NEXT_HOST'], faults=(spec == 0), task_window=1, max_pages=1)
             out.append(('t%s-s%d' % (to, spec), p, 6 if ctx.quick else 8))
+    # more speculative executions allowed than hosts left in the query plan (the speculative timer must
+    # still hand over to the timeout timer), and a speculative delay that does not fit the remaining time
+    for hosts, spec, delay, to in ((2, 3, 1.0, 10.0), (1, 1, 1.0, 10.0), (1, 2, 0.5, 2.0), (3, 3, 0.4, 1.0), (3, 1, 2.0, 1.0), (3, 2, 0.5, 1.0)):
+        p = dict(hosts=hosts, timeout=to, spec=spec, spec_delay=delay, paged=True, kinds=['rows_more', 'overloaded'],
+                 decisions=['RETRY', 'RETRY_NEXT_HOST'], faults=False, task_window=1, max_pages=1)
+        out.append(('h%d-s%d-d%s-t%s' % (hosts, spec, delay, to), p, 6 if ctx.quick else 8))
     return out
 
 
